@@ -262,6 +262,12 @@ JUNK_BEFORE = ["\r", "\n", "\r\r\n", "\r\n\r", "\n\r\n", "\r\n\n", "\r\n\r\n\r",
 
 
 def table_cases():
+    # Transfer-Encoding on a request that is not HTTP/1.1 (any other version, or none): the connection is closed after that one message
+    for ver in (" HTTP/1.0", " HTTP/1.2", " HTTP/2.0", " HTTP/0.9", " HTTP/1.1", ""):
+        for te in ("Transfer-Encoding: chunked\r\n", "Transfer-Encoding: gzip\r\n", "transfer-encoding:chunked\r\nContent-Length: 5\r\n", "Content-Length: 5\r\nTransfer-Encoding: chunked\r\n"):
+            for conn in ("Connection: keep-alive\r\n", "Connection: Keep-Alive\r\n", ""):
+                for body in ("5\r\nhello\r\n0\r\n\r\n", "hello", ""):
+                    yield {"stream": "POST /te" + ver + "\r\nHost: h\r\n" + conn + te + "\r\n" + body + G.FOLLOWER, "adj": {}}
     for bi, base in enumerate(G.base_sentences()):
         yield {"stream": G.render(base) + G.FOLLOWER, "adj": {}}
         # bytes in front of a request line: of the first message and of one pipelined behind a complete message
